@@ -95,7 +95,17 @@ class TinyDB(DataBase):
         """
         compare_function = OPERATOR_MAPPING.get(operator)
         if compare_function is not None:
-            return compare_function(query_with_attribute, ref_value)
+            if operator in ("like", "notlike"):
+                return compare_function(query_with_attribute, ref_value)
+
+            def _compare(value: Any) -> bool:
+                # A value that cannot be compared with the reference does not match
+                try:
+                    return bool(compare_function(value, ref_value))
+                except TypeError:
+                    return False
+
+            return query_with_attribute.test(_compare)
 
         raise ValueError(
             "Operator not supported according to ETSI TS 102 894-2 V2.2.1 (2023-10)"
